@@ -616,3 +616,148 @@ func heldAtEveryCall(c *Ctx, fn *ssa.Function, id string, depth int) (bool, int)
 	}
 	return n > 0, n
 }
+
+// verifySites returns the calls of fn whose nil error result establishes that a verification
+// matched by base succeeded: direct base calls, and calls of same-package verifier helpers
+// (functions every one of whose possibly-successful returns hands back the outcome of, or lies
+// behind the success edge of, such a site).  Inlining a one-line verifier or moving the
+// verification into a helper therefore keeps the same obligations.
+func verifySites(c *Ctx, fn *ssa.Function, base Matcher, depth int, skip ...func(*ssa.Function) edgeSet) []ssa.CallInstruction {
+	var out []ssa.CallInstruction
+	AllInstrs(fn, false, func(in ssa.Instruction) {
+		ci, ok := in.(ssa.CallInstruction)
+		if !ok {
+			return
+		}
+		if base(ci.Common()) {
+			out = append(out, ci)
+			return
+		}
+		if depth <= 0 {
+			return
+		}
+		sf := StaticFn(ci.Common())
+		if sf == nil || sf.Blocks == nil || sf == fn || FuncPkgPath(sf) != FuncPkgPath(fn) {
+			return
+		}
+		if isVerifierFn(c, sf, base, depth-1, skip...) {
+			c.Touch(sf)
+			out = append(out, ci)
+		}
+	})
+	return out
+}
+
+// skip (optional) names edges that satisfy the obligation by themselves (e.g. `no storage configured`).
+func isVerifierFn(c *Ctx, h *ssa.Function, base Matcher, depth int, skip ...func(*ssa.Function) edgeSet) bool {
+	ei := ErrorResultIndex(h)
+	if ei < 0 {
+		return false
+	}
+	sites := verifySites(c, h, base, depth, skip...)
+	skipEdges := map[[2]*ssa.BasicBlock]bool{}
+	for _, sf := range skip {
+		for e := range sf(h) {
+			skipEdges[e] = true
+		}
+	}
+	if len(sites) == 0 {
+		return false
+	}
+	for _, r := range Returns(h) {
+		if h.Recover != nil && r.Block() == h.Recover {
+			continue
+		}
+		rv := RetVal(r, ei)
+		if ProvablyNonNil(rv, r, 0) {
+			continue
+		}
+		direct := false
+		for _, s := range sites {
+			if ev := ErrResult(s); ev != nil && ev == rv {
+				direct = true
+			}
+		}
+		if direct || succOKq(h, sites, r) {
+			continue
+		}
+		if len(skipEdges) > 0 {
+			// reachable only through a verification site or a satisfying edge, and behind the
+			// success edge of every site that reaches it
+			if reach, _ := CutReach(h, nil, r, instrs(sites), skipEdges); !reach && succAfterSites(h, sites, r) {
+				continue
+			}
+		}
+		return false
+	}
+	return true
+}
+
+// valueSites returns the calls of fn whose result is the value computed by a call matched
+// by m: direct sites, and calls of same-package helpers one of whose results derives from
+// such a site (a helper that computes and returns the value).
+func valueSites(c *Ctx, fn *ssa.Function, m Matcher, depth int) []ssa.CallInstruction {
+	var out []ssa.CallInstruction
+	AllInstrs(fn, false, func(in ssa.Instruction) {
+		ci, ok := in.(ssa.CallInstruction)
+		if !ok {
+			return
+		}
+		if m(ci.Common()) {
+			out = append(out, ci)
+			return
+		}
+		if depth <= 0 {
+			return
+		}
+		h := StaticFn(ci.Common())
+		if h == nil || h.Blocks == nil || h == fn || FuncPkgPath(h) != FuncPkgPath(fn) {
+			return
+		}
+		inner := valueSites(c, h, m, depth-1)
+		if len(inner) == 0 {
+			return
+		}
+		src := valuesOf(inner)
+		for _, r := range Returns(h) {
+			for i := range r.Results {
+				if derivedFrom(RetVal(r, i), src, 4) {
+					c.Touch(h)
+					out = append(out, ci)
+					return
+				}
+			}
+		}
+	})
+	return out
+}
+
+// succAfterSites: r is not reachable from any of the sites except over the nil edge of that
+// site's error result (or by handing that result back).
+func succAfterSites(fn *ssa.Function, sites []ssa.CallInstruction, r ssa.Instruction) bool {
+	for _, a := range sites {
+		ev := ErrResult(a)
+		if ev == nil {
+			return false
+		}
+		cut := map[[2]*ssa.BasicBlock]bool{}
+		for _, e := range NilEdges(fn, FlowSet(ev)) {
+			cut[e.Nil] = true
+		}
+		if reach, _ := CutReach(fn, a.(ssa.Instruction), r, nil, cut); reach {
+			if ret, ok := r.(*ssa.Return); ok {
+				direct := false
+				for i := range ret.Results {
+					if RetVal(ret, i) == ev {
+						direct = true
+					}
+				}
+				if direct {
+					continue
+				}
+			}
+			return false
+		}
+	}
+	return true
+}
